@@ -333,14 +333,24 @@ def strategy(tier):
             targets = draw(st.lists(st.sampled_from([s['name'] for s in spec['states']]),
                                     min_size=len(pool), max_size=len(pool), unique=True))
             coerce = dict(zip(targets, pool))
+        # a compound state need not declare an initial state (valid by the listed rules)
+        no_initial = [x['name'] for x in spec['states']
+                      if x['kind'] == 'compound' and draw(st.floats(0, 1)) < 0.25]
         picks = draw(st.lists(st.floats(0, 0.999), min_size=40, max_size=40))
         return {'spec': spec, 'coerce': [[k, v] for k, v in coerce.items()], 'picks': picks,
-                'pairs': big}
+                'pairs': big, 'no_initial': no_initial}
     return cases()
 
 
 def base_document(case):
-    doc = to_yaml_dict(case['spec'])
+    spec = case['spec']
+    if case.get('no_initial'):
+        import copy as _copy
+        spec = _copy.deepcopy(spec)
+        for x in spec['states']:
+            if x['name'] in case['no_initial']:
+                x['initial'] = None
+    doc = to_yaml_dict(spec)
     ren = {k: v for k, v in case.get('coerce') or []}
     if ren:
         def fix(d):
